@@ -450,6 +450,26 @@ func genX(r *vh.Rng) (float64, string) {
 	return x, cls
 }
 
+// Grisu boundary classes: the shortest representation of these doubles sits close to the edge of the
+// rounding interval, where a too generous "weeding" margin of the fast path drops a digit.
+// (a) integers in [2^53, 2^63) with an odd 53-bit significand; (b) d*10^k +- 1 ulp for a 15-16 digit d
+// (x needs 16-17 digits while its neighbour needs 15-16).
+func grisuInt(r *vh.Rng) float64 {
+	return float64((r.U64()>>11)|1|1<<52) * math.Ldexp(1, 1+r.Intn(10))
+}
+func grisuDec(r *vh.Rng) float64 {
+	d := 100000000000000 + r.U64()%9900000000000000
+	k := r.Intn(61) - 30
+	if r.Chance(10) {
+		k = r.Intn(560) - 290
+	}
+	x, _ := strconv.ParseFloat(fmt.Sprintf("%de%d", d, k), 64)
+	if r.Bool() {
+		return math.Nextafter(x, math.Inf(1))
+	}
+	return math.Nextafter(x, 0)
+}
+
 func ulps(x float64, k int) float64 {
 	b := math.Float64bits(x)
 	nb := int64(b) + int64(k)
@@ -869,7 +889,7 @@ func withSeparators(r *vh.Rng, s string) string {
 
 func genCase(r *vh.Rng) Case {
 	c := Case{}
-	k := r.Pick(14, 3, 14, 8, 10, 8, 3, 16, 6, 9, 9)
+	k := r.Pick(18, 3, 14, 8, 10, 8, 3, 16, 6, 9, 9)
 	c.K = []string{"str", "exps", "fixed", "exp", "prec", "radix", "round", "num", "pf", "pi", "lit"}[k]
 	c.Xr = pick(r, []string{"tovalue", "ftv"})
 	c.Sr = pick(r, []string{"go", "lit"})
@@ -880,12 +900,27 @@ func genCase(r *vh.Rng) Case {
 		return x
 	}
 	switch c.K {
-	case "str":
+	case "str", "exps":
 		setX()
-		c.Sf = pick(r, []string{"ftoa", "ftoa", "String", "concat", "tostr", "tostr10", "tmpl"})
-	case "exps":
-		setX()
-		c.Sf = pick(r, []string{"js", "ftoa"})
+		switch r.Pick(45, 42, 13) {
+		case 1:
+			x := grisuInt(r)
+			if r.Chance(25) {
+				x = -x
+			}
+			c.B, c.Cls = strconv.FormatUint(canonBits(x), 10), "grisu-int"
+		case 2:
+			x := grisuDec(r)
+			if r.Chance(25) {
+				x = -x
+			}
+			c.B, c.Cls = strconv.FormatUint(canonBits(x), 10), "grisu-dec1ulp"
+		}
+		if c.K == "str" {
+			c.Sf = pick(r, []string{"ftoa", "ftoa", "String", "concat", "tostr", "tostr10", "tmpl"})
+		} else {
+			c.Sf = pick(r, []string{"js", "ftoa"})
+		}
 	case "round":
 		setX()
 		c.Sf = "js"
